@@ -118,11 +118,13 @@ pub fn c19(tier: &str, seed: u64, meta: &str) -> Report {
             if std::env::var("RV_DEBUG19").is_ok() && i == 0 { eprintln!("base {:?} after context_new {:?}", base, live()); }
             let mut handles: Vec<(*mut Suggestion, Snap)> = Vec::new();
             let mut ctx_alive = true;
-            let nev = 4 + rng.below(30);
+            // one case in twelve is a long composition (more than a hundred characters without a commit)
+            let long = i % 12 == 5;
+            let nev = if long { 110 + rng.below(80) } else { 4 + rng.below(30) };
             let mut last_len = 1usize;
             for n in 0..nev {
                 if !ctx_alive { break; }
-                let ev = rng.below(12);
+                let ev = if long && !rng.chance(1, 25) { 0 } else { rng.below(12) };
                 let p: *mut Suggestion = match ev {
                     0..=6 => {
                         let (k, m) = if phonetic { (fpr.p.keys[rng.pick(&"abdeghiklmnoprstu`:).\"'".chars().collect::<Vec<_>>())], 0u8) } else { let x = rng.below(fpr.km.keys.len()); (fpr.km.keys[x].0, fpr.km.keys[x].1) };
@@ -171,7 +173,7 @@ pub fn c19(tier: &str, seed: u64, meta: &str) -> Report {
         rep.nontrivial_key(&format!("{}", i));
         if rep.samples.len() < 1 && i % 499 == 3 { rep.sample(json!({"calls": log})); }
     });
-    rep.extra.insert("rule".into(), json!("each case is a full life cycle through the exported C symbols only: config (new, setters, free), context (new, key / backspace / commit / finish / ongoing, free), suggestion handles kept alive and read out (length, index, auxiliary, candidates, pre-edit, lonely, is_lonely, is_empty) when created, again after later calls on the context and after the context was freed, then freed in random order; every returned string is compared byte-wise with the Rust API value captured at creation and freed; ffi!(riti_string_free(NULL)) is called; a counting global allocator (per thread) must be back at its baseline at the end; non-trivial = every case"));
+    rep.extra.insert("rule".into(), json!("each case is a full life cycle through the exported C symbols only: config (new, setters, free), context (new, key / backspace / commit / finish / ongoing, free), suggestion handles kept alive and read out (length, index, auxiliary, candidates, pre-edit, lonely, is_lonely, is_empty) when created (one case in twelve composes 110-190 keys without a commit, so read-outs of several hundred bytes occur), again after later calls on the context and after the context was freed, then freed in random order; every returned string is compared byte-wise with the Rust API value captured at creation and freed; riti_string_free(NULL) is called; a counting global allocator (per thread) must be back at its baseline at the end; non-trivial = every case"));
     rep.extra.insert("memory_safety".into(), json!("observed by allocation counting here; invalid accesses are looked for by the thorough tier under valgrind"));
     rep
 }
